@@ -217,6 +217,41 @@ func (a *ctxHiding) analyse(fn hookFn, importPathIdx int, alwaysHide bool, depth
 			case x.Op == token.LAND && !truth:
 				return implies(x.X, false) && implies(x.Y, false)
 			}
+		case *ast.Ident:
+			// the ok of `_, ok := stale[importPath]` (a set written as map[string]struct{} or any other map)
+			if truth || alwaysHide {
+				return false
+			}
+			okObj := useOf(x)
+			if okObj == nil {
+				return false
+			}
+			found := false
+			ast.Inspect(fn.body, func(n ast.Node) bool {
+				as, isAs := n.(*ast.AssignStmt)
+				if !isAs || len(as.Lhs) != 2 || len(as.Rhs) != 1 {
+					return true
+				}
+				l1, isID := as.Lhs[1].(*ast.Ident)
+				if !isID || (info.Defs[l1] != okObj && info.Uses[l1] != okObj) {
+					return true
+				}
+				ix, isIx := ast.Unparen(as.Rhs[0]).(*ast.IndexExpr)
+				if !isIx || useOf(ix.Index) != importPath {
+					return true
+				}
+				if _, isMap := info.TypeOf(ix.X).Underlying().(*types.Map); !isMap {
+					return true
+				}
+				o := useOf(ix.X)
+				if o == nil || (a.staleObj != nil && a.staleObj != o) {
+					return true
+				}
+				a.staleObj = o
+				found = true
+				return true
+			})
+			return found
 		case *ast.IndexExpr:
 			if truth || alwaysHide {
 				return false
